@@ -76,7 +76,11 @@ class EvolutionStrategyOptimizer(EvolutionaryAlgorithmOptimizer):
             if self.conv.not_in_constraint(pos_new):
                 return pos_new
 
-            return self.p_current.move_climb(pos_new)
+            # the feasible fallback is the position that gets evaluated:
+            # the individual has to record it instead of the rejected one
+            pos_new = self.p_current.move_climb(pos_new)
+            p_worst.pos_new = pos_new
+            return pos_new
 
     @EvolutionaryAlgorithmOptimizer.track_new_pos
     def init_pos(self):
